@@ -1,1 +1,68 @@
-//! (to be filled)
+//! Format-spec grid (DESIGN §5.3): fill / alignment / flags are literals, width and precision run-time.
+
+use std::fmt::Display;
+
+pub const SPECS: [&str; 22] = [
+    "", "<", "^", ">", "*<", "*^", "*>", "0<", "0^", "0>", "é<", "é^", "é>", "+", "#", "0", "+<", "#>", "-^", "_>", " <", "x^",
+];
+pub const WIDTHS: usize = 17; // 0..=16
+pub const PRECS: usize = 10; // none, 0..=8
+
+macro_rules! arms {
+    ($t:expr, $si:expr, $w:expr, $p:expr; $($i:literal => $s:literal),*) => {
+        match $si {
+            $($i => match $p {
+                None => format!(concat!("{:", $s, "w$}"), $t, w = $w),
+                Some(p) => format!(concat!("{:", $s, "w$.p$}"), $t, w = $w, p = p),
+            },)*
+            _ => unreachable!(),
+        }
+    };
+}
+
+pub fn render(t: &dyn Display, si: usize, w: usize, p: Option<usize>) -> String {
+    arms!(t, si, w, p;
+        0 => "", 1 => "<", 2 => "^", 3 => ">", 4 => "*<", 5 => "*^", 6 => "*>", 7 => "0<", 8 => "0^", 9 => "0>",
+        10 => "é<", 11 => "é^", 12 => "é>", 13 => "+", 14 => "#", 15 => "0", 16 => "+<", 17 => "#>", 18 => "-^",
+        19 => "_>", 20 => " <", 21 => "x^")
+}
+
+pub fn cells() -> usize {
+    SPECS.len() * WIDTHS * PRECS
+}
+
+pub fn cell(k: usize) -> (usize, usize, Option<usize>) {
+    let si = k / (WIDTHS * PRECS);
+    let w = (k / PRECS) % WIDTHS;
+    let p = k % PRECS;
+    (si, w, if p == 0 { None } else { Some(p - 1) })
+}
+
+pub fn label(k: usize) -> String {
+    let (si, w, p) = cell(k);
+    match p {
+        None => format!("{{:{}{}}}", SPECS[si], w),
+        Some(p) => format!("{{:{}{}.{}}}", SPECS[si], w, p),
+    }
+}
+
+/// compare two displayable values over the whole grid; returns (cells compared, padded-or-truncated cells,
+/// first mismatch as (label, expected, actual))
+pub fn compare(actual: &dyn Display, reference: &dyn Display, ref_chars: usize) -> (u64, u64, Option<(String, String, String)>) {
+    let mut nt = 0;
+    for k in 0..cells() {
+        let (si, w, p) = cell(k);
+        let a = match crate::catch(|| render(actual, si, w, p)) {
+            Ok(a) => a,
+            Err(e) => return (k as u64, nt, Some((label(k), "no panic".into(), format!("panicked: {}", e)))),
+        };
+        let r = render(reference, si, w, p);
+        if w > ref_chars || p.map(|p| p < ref_chars).unwrap_or(false) {
+            nt += 1;
+        }
+        if a != r {
+            return (k as u64 + 1, nt, Some((label(k), r, a)));
+        }
+    }
+    (cells() as u64, nt, None)
+}
